@@ -794,18 +794,16 @@ func (wf *WALFileType) SyncWAL(walRefresh, primaryRefresh time.Duration, walRota
 
 // RequestFlush requests WAL Flush to the WAL writer goroutine
 // if it exists, or just does the work in the same goroutine otherwise.
-// The function blocks if there are no current queued flushes, and
-// returns if there is already one queued which will handle the data
-// present in the write channel, as it will flush as soon as possible.
+// The function blocks until a flush that started after the request has
+// completed, so that the caller's data is synced to the WAL and written to
+// the primary files when it returns. (Returning early because another flush
+// is already queued would acknowledge writes that are not yet durable nor
+// visible; a flush that finds nothing to write is cheap.)
 func (wf *WALFileType) RequestFlush() {
 	if !haveWALWriter {
 		if err := wf.FlushToWAL(); err != nil {
 			log.Error("failed to flush WAL", zap.Error(err))
 		}
-		return
-	}
-	// if there's already a queued flush, no need to queue another
-	if len(wf.txnPipe.flushChannel) > 0 {
 		return
 	}
 	f := make(chan struct{})
